@@ -4,9 +4,12 @@ import (
 	"context"
 	"encoding/json"
 	"fmt"
+	"os"
+	"strconv"
 	"strings"
 	"sync/atomic"
 	"testing"
+	"time"
 
 	"pgregory.net/rapid"
 
@@ -58,9 +61,24 @@ func countVia(ctx context.Context, store interface {
 	return len(r.Rows("Users")), ""
 }
 
-func runBulk(c BulkCase) *hx.Failure {
+// errBulkHung marks a case whose batch call did not return within bulkCallDeadline: no verdict (time is not
+// an oracle), the node is abandoned, the phase goes on with other cases.
+var errBulkHung = &hx.Failure{Sig: "C06/bulk/inconclusive-call-did-not-return"}
+
+var bulkCallDeadline = func() time.Duration {
+	if s, err := strconv.Atoi(os.Getenv("VERIF_BULK_DEADLINE_S")); err == nil && s > 0 {
+		return time.Duration(s) * time.Second
+	}
+	return 3 * time.Minute
+}()
+
+func runBulk(c BulkCase) (fail *hx.Failure) {
 	n := hx.MustMemNode()
-	defer n.Close()
+	defer func() {
+		if fail != errBulkHung {
+			n.Close()
+		}
+	}()
 	if _, err := n.DB.AddSchema(n.Ctx, "type Users { name: String  age: Int @index }"); err != nil {
 		hx.Harnessf("schema: %v", err)
 	}
@@ -94,44 +112,71 @@ func runBulk(c BulkCase) *hx.Failure {
 	tctx := db.InitContext(n.Ctx, txn)
 	what := fmt.Sprintf("one call creating %d documents inside an explicit transaction (route %d, %d committed before)", c.N, c.Route, c.Pre)
 
-	// the batch
-	switch c.Route {
-	case 0:
-		docs := make([]*client.Document, 0, c.N)
-		for i := 0; i < c.N; i++ {
-			d, err := client.NewDocFromJSON([]byte(fmt.Sprintf(`{"name": "b%d", "age": %d}`, i, i%50)), col.Definition())
-			if err != nil {
-				hx.Harnessf("doc: %v", err)
+	// the batch (in a goroutine of its own: a call that never returns must not take the whole check with it)
+	batch := func() *hx.Failure {
+		switch c.Route {
+		case 0:
+			docs := make([]*client.Document, 0, c.N)
+			for i := 0; i < c.N; i++ {
+				d, err := client.NewDocFromJSON([]byte(fmt.Sprintf(`{"name": "b%d", "age": %d}`, i, i%50)), col.Definition())
+				if err != nil {
+					hx.Harnessf("doc: %v", err)
+				}
+				docs = append(docs, d)
 			}
-			docs = append(docs, d)
-		}
-		if err := col.CreateMany(tctx, docs); err != nil {
-			txn.Discard(n.Ctx)
-			return hx.Failf("C06/bulk/create-error", "%s: CreateMany failed: %v", what, err)
-		}
-	default:
-		var sb strings.Builder
-		for i := 0; i < c.N; i++ {
-			if i > 0 {
-				sb.WriteString(", ")
+			if err := col.CreateMany(tctx, docs); err != nil {
+				txn.Discard(n.Ctx)
+				return hx.Failf("C06/bulk/create-error", "%s: CreateMany failed: %v", what, err)
 			}
-			fmt.Fprintf(&sb, `{name: "b%d", age: %d}`, i, i%50)
+		default:
+			var sb strings.Builder
+			for i := 0; i < c.N; i++ {
+				if i > 0 {
+					sb.WriteString(", ")
+				}
+				fmt.Fprintf(&sb, `{name: "b%d", age: %d}`, i, i%50)
+			}
+			q := "mutation { create_Users(input: [" + sb.String() + "]) { _docID } }"
+			var r hx.Result
+			if c.Route == 1 {
+				r = hx.ExecOn(n.Ctx, txn, q)
+			} else {
+				r = hx.ExecOn(tctx, n.DB, q)
+			}
+			if !r.OK() {
+				txn.Discard(n.Ctx)
+				return hx.Failf("C06/bulk/create-error", "%s: the mutation failed: %v %s", what, r.Errors, r.Panic)
+			}
+			if got := len(r.Rows("create_Users")); got != c.N {
+				txn.Discard(n.Ctx)
+				return hx.Failf("C06/bulk/result-rows", "%s: the mutation returned %d rows", what, got)
+			}
 		}
-		q := "mutation { create_Users(input: [" + sb.String() + "]) { _docID } }"
-		var r hx.Result
-		if c.Route == 1 {
-			r = hx.ExecOn(n.Ctx, txn, q)
-		} else {
-			r = hx.ExecOn(tctx, n.DB, q)
+		return nil
+	}
+	done := make(chan *hx.Failure, 1)
+	go func() {
+		defer func() {
+			if p := recover(); p != nil {
+				if he, ok := p.(hx.HarnessError); ok {
+					done <- &hx.Failure{Sig: "harness", Msg: string(he)}
+					return
+				}
+				done <- hx.Failf("C06/bulk/panic", "%s: panic: %v", what, p)
+			}
+		}()
+		done <- batch()
+	}()
+	select {
+	case f := <-done:
+		if f != nil && f.Sig == "harness" {
+			panic(hx.HarnessError(f.Msg))
 		}
-		if !r.OK() {
-			txn.Discard(n.Ctx)
-			return hx.Failf("C06/bulk/create-error", "%s: the mutation failed: %v %s", what, r.Errors, r.Panic)
+		if f != nil {
+			return f
 		}
-		if got := len(r.Rows("create_Users")); got != c.N {
-			txn.Discard(n.Ctx)
-			return hx.Failf("C06/bulk/result-rows", "%s: the mutation returned %d rows", what, got)
-		}
+	case <-time.After(bulkCallDeadline):
+		return errBulkHung
 	}
 
 	// inside: own writes; outside and in the other transaction: nothing yet
@@ -185,6 +230,10 @@ func evaluateBulk(t *rapid.T, c BulkCase) {
 		t.Skip("a failure of this phase was already recorded; the phase does not shrink")
 	}
 	f := hx.Guard("C06", func() *hx.Failure { return runBulk(c) })
+	if f == errBulkHung {
+		rec.Label("bulk:call-did-not-return-within-deadline")
+		t.Skip("the batch call did not return within the deadline: no verdict for this case")
+	}
 	if f != nil {
 		bulkFailed.Store(true)
 	}
